@@ -980,6 +980,21 @@ class LuaASTEchoWriter(BaseLuaWriter):
             for t in self._walk(node.explist):
                 yield t
 
+    def _walk_StatPrintShort(self, node):
+        if self._args.get('ignore_tokens'):
+            # (Without the token stream the line structure is lost, so write
+            # the equivalent call.)
+            yield b' print('
+            if node.explist is not None:
+                for t in self._walk(node.explist):
+                    yield t
+            yield b')'
+            return
+        yield self._get_name(node, lexer.TokName(b'?'))
+        if node.explist is not None:
+            for t in self._walk(node.explist):
+                yield t
+
     def _walk_FunctionName(self, node):
         yield self._get_name(node, node.namepath[0])
         if len(node.namepath) > 1:
